@@ -342,13 +342,18 @@ Inductive case :=
 | KRecon (set : settings) (objs : list (@lobj QOps)) (A : qm) (b : qv) (eps : Q) (out : res qv)   (* Inversion.reconstruction *)
 | KMapped (Bs : list qm) (s : qv) (npix : nat) (dict : list qv) (total : qv)          (* mapped_reconstructed_data_dict / _data *)
 | KDict (ps : list nat) (s : qv) (out : list qv)                                      (* reconstruction_dict *)
-| KUnique (pix : list (list Z)) (wts : qm) (lens : list nat) (s : qv) (M : qm) (out : qv).   (* ..._via_image_to_pix_unique_from; M = mapper.mapping_matrix *)
+| KUnique (pix : list (list Z)) (wts : qm) (lens : list nat) (s : qv) (M : qm) (out : qv)    (* ..._via_image_to_pix_unique_from; M = mapper.mapping_matrix *)
+(* the same observation, but a floating-point decision of the solver lies on (or within 1e-6 of) a tie -- exactly symmetric or
+   degenerate systems --, so that the model's and the implementation's tie-breaks may legitimately differ: the comparison with the
+   model is waived, the specification is still evaluated on the implementation's output (it must hold whatever tie-break was used) *)
+| KSpec (k : case).
 
 Definition strip (r : res (@vec QOps * exit_kind * list bool)) : res qv :=
   match r with Ok (d, _, _) => Ok d | Raise e => Raise e end.
 
-Definition agree (k : case) : bool :=
+Fixpoint agree (k : case) : bool :=
   match k with
+  | KSpec _ => true
   | KFnnls A b eps pinit out => res_eqb qv_close out (strip (@fnnls QOps FUEL A b eps pinit))
   | KPosOnly A b eps uses_p out => res_eqb qv_close out (@reconstruction_positive_only QOps FUEL A b eps uses_p)
   | KPosNeg A b ranges chk out => res_eqb qv_close out (@reconstruction_positive_negative QOps A b ranges chk)
@@ -375,8 +380,9 @@ Fixpoint forced (objs : list (@lobj QOps)) (edge_image : bool) (source_zero : li
   end.
 Definition is_inv_exn {A} (r : res A) : bool := match r with Raise InversionException => true | _ => false end.
 
-Definition spec_ok (k : case) : bool :=
+Fixpoint spec_ok (k : case) : bool :=
   match k with
+  | KSpec k' => spec_ok k'
   | KFnnls A b eps pinit out =>
       match out with Ok d => @kkt_ok QOps A b d (tol_of b) | Raise _ => false end
   | KPosOnly A b eps uses_p out =>
